@@ -316,15 +316,40 @@ func loadKnown(path string) map[string]string {
 	return res
 }
 
-// safeExec runs one case; a panic raised by the library on the calling goroutine becomes
-// the tape of a panic (kind 70, judged by C07x) rather than the end of the whole run
-func safeExec(p *Prop, s Spec) (e Exec) {
-	defer func() {
-		if r := recover(); r != nil {
-			e = Exec{Tape: "70 1 0 0 1", Tags: []string{"PANIC"}, Nontrivial: true}
-		}
+// safeExec runs one case under a watchdog; a panic raised by the library on the case's goroutine
+// becomes the tape of a panic, a case that does not return within caseTimeout the tape of a hang
+// (kind 70, judged by C07x: clauses 50, 51) rather than the end, or the stall, of the whole run.
+// After three hangs the remaining cases of the property are not run (tagged so in the evidence).
+const caseTimeout = 90 * time.Second
+
+var hangMu sync.Mutex
+var hangCount = map[string]int{}
+
+func safeExec(p *Prop, s Spec) Exec {
+	hangMu.Lock()
+	h := hangCount[p.ID]
+	hangMu.Unlock()
+	if h >= 3 {
+		return Exec{Tape: "70 0 0 0 1", Tags: []string{"NOT-RUN:three-earlier-cases-hung"}}
+	}
+	ch := make(chan Exec, 1)
+	go func() {
+		defer func() {
+			if r := recover(); r != nil {
+				ch <- Exec{Tape: "70 1 0 0 1", Tags: []string{"PANIC"}, Nontrivial: true}
+			}
+		}()
+		ch <- p.Exec(s)
 	}()
-	return p.Exec(s)
+	select {
+	case e := <-ch:
+		return e
+	case <-time.After(caseTimeout):
+		hangMu.Lock()
+		hangCount[p.ID]++
+		hangMu.Unlock()
+		return Exec{Tape: "70 0 1 0 1", Tags: []string{"HUNG"}, Nontrivial: true}
+	}
 }
 
 // clauseText names a clause; 50 is the panic clause every harness shares through safeExec
@@ -334,6 +359,9 @@ func clauseText(p *Prop, clause int) string {
 	}
 	if clause == 50 {
 		return "a call into the package panicked"
+	}
+	if clause == 51 {
+		return "a call into the package did not return (90 s watchdog)"
 	}
 	return ""
 }
